@@ -1260,8 +1260,10 @@ class PhasedVcfWriter(VcfAugmenter):
                     )
                     self._set_phasing_tags(call, components[pos], phases[pos], haploid_component)
                 else:
-                    # Unphased
-                    call[self.tag] = None
+                    # Unphased. Do not add the tag to a record that does not have it: a String tag
+                    # (HP) that is missing in every sample is written as a NUL byte by htslib
+                    if self.tag in record.format:
+                        call[self.tag] = None
             prev_pos = pos
         return genotype_changes
 
